@@ -856,6 +856,8 @@ Proof.
   destruct (t_declared st =? 0) eqn:E0; [right; left; apply Z.eqb_eq; exact E0|].
   destruct (t_declared st <? 10 ^ 80) eqn:E80; [|right; right; apply Z.ltb_ge; exact E80].
   left. split; [reflexivity|]. unfold step_req. cbn [w_body]. rewrite E0. cbn [body_wf].
-  rewrite E80, Hl, Z.eqb_refl. cbn [andb]. rewrite andb_true_r. apply Z.ltb_lt.
-  pose proof (Zle_0_nat (length (t_delivered st))). apply Z.eqb_neq in E0. unfold blen in Hl. lia.
+  rewrite E80, Hl, Z.eqb_refl.
+  assert (H0 : (0 <? t_declared st) = true).
+  { apply Z.ltb_lt. pose proof (Zle_0_nat (length (t_delivered st))). apply Z.eqb_neq in E0. unfold blen in Hl. lia. }
+  rewrite H0. reflexivity.
 Qed.
